@@ -191,6 +191,11 @@ def closure(ctx, impl, n, budget_s):
                         ctx.fail('stabilizer_measure', 'closure: raised %r' % e, dict(rows=rows, r=r, obs=ob)); return
                 nxt = (tuple(O.from_gp(g, p) for g, p in zip(a, b)), int(r2))
                 ntrans += 1
+                # exhaustive strict correspondence of the measurement kernel on this transition (raw tableau, rank, outcome)
+                cb = (int(out[0]) + ob[1] // 2) % 2
+                ctx.q('closure-measure', 'measurek %d %s %s %d' % (r, H.erows_ops(list(rows)), H.erows_ops([ob]), cb),
+                      (int(r2), list(nxt[0]), [int(out[0])]),
+                      lambda s_: (int(s_.split(' ')[1]), H.drows_ops(s_.split(' ')[2]), E.dints(s_.split(' ')[3])) if s_.startswith('ok ') else s_)
                 if nxt not in seen:
                     bad = O.tableau_invariant(list(nxt[0]), n, int(r2))
                     if bad:
